@@ -402,6 +402,17 @@ func (runInfo *runInfoStruct) invokeMemberExpr(expr *ast.MemberExpr) {
 
 	switch runInfo.rv.Kind() {
 	case reflect.Struct:
+		// a pointer-receiver method hides a field of the same name promoted from an embedded struct
+		if method, found := reflect.PtrTo(runInfo.rv.Type()).MethodByName(expr.Name); found {
+			if runInfo.rv.CanAddr() {
+				runInfo.rv = runInfo.rv.Addr().Method(method.Index)
+			} else {
+				cv := reflect.New(runInfo.rv.Type())
+				cv.Elem().Set(runInfo.rv)
+				runInfo.rv = cv.Method(method.Index)
+			}
+			return
+		}
 		field, found := runInfo.rv.Type().FieldByName(expr.Name)
 		if found && field.PkgPath != "" {
 			// an unexported field is not a member a script can reach
